@@ -376,6 +376,8 @@ def r4_export_load(ctx):
     ctx.check(ok, gs, "samples = all features of each stored curve",
               "exported samples are not compute_features(curve) with all "
               "features")
+    # one row per stored curve: the row is appended on every iteration
+    _one_row_per_item(ctx, gs, "the exported sample matrix")
     # same snapshot for features and ratings
     gr = io.func("RateManager.get_rates")
     ctx.analysed(gr)
@@ -397,6 +399,50 @@ def r4_export_load(ctx):
           and const_str(n.slice) == "rating"]
     ctx.check(bool(ur), gr, "user rates = stored 'rating' of each entry",
               "get_rates('user') does not return the stored ratings")
+
+
+def _one_row_per_item(ctx, fn, what):
+    """in the loop(s) of `fn` that fill the returned list, the append is
+    reached on every iteration (no skip, no early exit): rows stay paired
+    with the ratings, which enumerate every stored curve"""
+    from ..cfg import CFG
+    loops = [n for n in walk_no_nested(fn, False) if isinstance(n, ast.For)]
+    found = 0
+    for lp in loops:
+        apps = [c for st in lp.body for c in ast.walk(st)
+                if isinstance(c, ast.Call) and isinstance(
+                    c.func, ast.Attribute) and c.func.attr == "append"]
+        if not apps:
+            continue
+        found += 1
+        skip = [n for st in lp.body for n in ast.walk(st)
+                if isinstance(n, (ast.Continue, ast.Break, ast.Return))]
+        cond = []
+        for c in apps:
+            cur = c
+            while cur is not lp and cur is not None:
+                par = getattr(cur, "_parent", None)
+                if isinstance(par, (ast.If, ast.While, ast.ExceptHandler,
+                                    ast.IfExp)) or (
+                        isinstance(par, ast.For) and par is not lp):
+                    cond.append(norm(getattr(par, "test", par))[:50])
+                cur = par
+        how = f"`{norm(skip[0])}`" if skip else (
+            f"append only under `{cond[0]}`" if cond else "")
+        ctx.check(not skip and not cond, lp,
+                  f"{fn.name}: one row per stored curve",
+                  f"{fn.name} skips curves ({how}): {what} has fewer rows "
+                  "than there are stored ratings, every later row is "
+                  "paired with the rating of another curve")
+    if not found and not any(isinstance(n, (ast.ListComp, ast.GeneratorExp))
+                             for n in ast.walk(fn)):
+        raise Undecided(f"{fn.name}: row-building loop not found")
+    for n in ast.walk(fn):
+        if isinstance(n, (ast.ListComp, ast.GeneratorExp)) and any(
+                g.ifs for g in n.generators):
+            ctx.fail(n, f"{fn.name}: filtered comprehension",
+                     f"{fn.name} filters the stored curves: {what} is no "
+                     "longer paired with the stored ratings")
 
 
 def r5_weights(ctx):
